@@ -46,6 +46,8 @@ type kWorld struct {
 	servers map[string]*kServer
 	dialLog []string
 	events  []string
+	// onPreConnect, when set, is called for every ServerPreConnectEvent (the harness scripts allow/deny/redirect)
+	onPreConnect func(e *ServerPreConnectEvent)
 }
 
 type kServer struct {
@@ -118,6 +120,11 @@ func newKWorld(t *testing.T, o kOpts) *kWorld {
 		t.Fatal(err)
 	}
 	w.p = p
+	event.Subscribe(p.Event(), 0, func(e *ServerPreConnectEvent) {
+		if w.onPreConnect != nil {
+			w.onPreConnect(e)
+		}
+	})
 	for i, n := range o.Servers {
 		s := &kServer{w: w, name: n, addr: netutil.NewAddr(fmt.Sprintf("10.9.0.%d:25565", i+1), "tcp"), mode: "accept"}
 		w.servers[n] = s
